@@ -276,13 +276,15 @@ func publishers(c *Ctx) map[*ssa.Function]int {
 	for _, f := range c.AllFns {
 		eachInstr(f, func(i ssa.Instruction) {
 			cc := callCommon(i)
-			if cc == nil || calleeName(cc) != "(*sync/atomic.Value).Store" || len(cc.Args) != 2 {
+			kind, _, val, isAtomic := atomicOp(cc)
+			if !isAtomic || kind != "store" || val == nil {
 				return
 			}
-			v := stripIface(cc.Args[1])
-			for k, p := range f.Params {
-				if v == p {
-					out[f] = k
+			for _, v := range publishedValue(val) {
+				for k, p := range f.Params {
+					if v == p {
+						out[f] = k
+					}
 				}
 			}
 		})
@@ -336,11 +338,15 @@ func runPublish(c *Ctx, ruleS5, ruleS6 string) {
 	for _, f := range c.AllFns {
 		eachInstr(f, func(i ssa.Instruction) {
 			cc := callCommon(i)
-			if cc == nil || calleeName(cc) != "(*sync/atomic.Value).Store" || len(cc.Args) != 2 {
+			kind, _, val, isAtomic := atomicOp(cc)
+			if !isAtomic || kind != "store" || val == nil {
 				return
 			}
+			if _, isBasic := stripIface(val).Type().Underlying().(*types.Basic); isBasic {
+				return // counters and flags, not published structures
+			}
 			nStores++
-			v := stripIface(cc.Args[1])
+			v := publishedValue(val)[0]
 			// after the store, no write through v in this function
 			bad := ""
 			var badPos token.Pos
